@@ -349,6 +349,10 @@ def library_items(thorough, r, work):
         for _p, dd in walk_decls(d["declarations"]):
             if r.random() < 0.5:
                 dd["doxygen"] = {"brief": "brief of %s" % dd["decl"].split("(")[0][-12:], "description": "line one\nline two\n"}
+                if r.random() < 0.4:
+                    dd["doxygen"]["brief"] += "\nsecond brief line"
+                    dd["doxygen"]["description"] = "no trailing newline\nsecond line"
+                    dd["doxygen"]["return"] = "what it returns\nmore\n"
         y = shroudrun.write_yaml(work, "gl%d.yaml" % i, dump_yaml(d))
         items.append(dict(label="gen:gl%d" % i, yaml=y, options=[], language=None, path=[work], text=dump_yaml(d)))
     return items
@@ -495,7 +499,7 @@ def validate_compilers(ctx, samples, work):
             g = gcc_lines(path, path.endswith("pp"))
             if g is None:
                 continue
-            m = ["".join(l) for l in toks]
+            m = ["".join("".join(l).split()) for l in toks]     # blanks inside literals are dropped on both sides
             nc += 1
             if g != m:
                 k = next((i for i, (x, y) in enumerate(zip(g, m)) if x != y), min(len(g), len(m)))
@@ -631,7 +635,9 @@ def run(ctx):
         ]
         ctx.cov["theorems"] = ctx.cov.get("theorems", [])
 
-        judge = Judge(ctx, ok)
+        # the driver depends on Model/Lex.lean only: it stays usable when a table theorem of Props/C16.lean breaks
+        drv_ok = ok or common.lake_build(["drv_lex"]).ok
+        judge = Judge(ctx, drv_ok)
         file_texts, samples = [], []
         # ---------------- corpus cases first
         jobs = []
@@ -664,7 +670,7 @@ def run(ctx):
                 seen.add(h)
                 texts.append((lang, text))
         r.shuffle(texts)
-        lexer_correspondence(ctx, ok, texts[: (400 if thorough else 60)], thorough)
+        lexer_correspondence(ctx, drv_ok, texts[: (400 if thorough else 60)], thorough)
         if thorough:
             uniq, seen2 = [], set()
             for name, lang, text in samples:
